@@ -207,9 +207,105 @@ fn stage(i: &Input, c: &mut Case) -> Result<(), String> {
     })
 }
 
-pub const STAGES: &[Stage] = &[Stage { name: "totality", f: stage }];
+
+// ---------------------------------------------------------------------------------------------
+// stack use must not grow with the number of consecutive buffered masters (unbounded recursion = abort by stack overflow)
+
+struct DepthRead<'a> {
+    data: &'a [u8],
+    pos: usize,
+    min_sp: usize,
+}
+
+impl<'a> std::io::Read for DepthRead<'a> {
+    #[inline(never)]
+    fn read(&mut self, buf: &mut [u8]) -> std::io::Result<usize> {
+        let marker = 0u8;
+        let sp = &marker as *const u8 as usize;
+        if sp < self.min_sp {
+            self.min_sp = sp;
+        }
+        // small reads so that the source is consulted throughout the parse
+        let n = buf.len().min(self.data.len() - self.pos).min(64);
+        buf[..n].copy_from_slice(&self.data[self.pos..self.pos + n]);
+        self.pos += n;
+        Ok(n)
+    }
+}
+
+#[inline(never)]
+fn depth_of_parse(bytes: &[u8], buffered: &[u64]) -> Result<(usize, usize), String> {
+    use crate::dynspec::DynTag;
+    use ebml_iterable::specs::{EbmlSpecification, Master};
+    let base_marker = 0u8;
+    let base_sp = &base_marker as *const u8 as usize;
+    let mut src = DepthRead { data: bytes, pos: 0, min_sp: usize::MAX };
+    let items = guarded(|| {
+        let tags: Vec<DynTag> = buffered.iter().filter_map(|id| DynTag::get_master_tag(*id, Master::Start)).collect();
+        let it = ebml_iterable::TagIterator::<_, DynTag>::new(&mut src, &tags);
+        let mut n = 0usize;
+        for x in it {
+            if x.is_err() {
+                break;
+            }
+            n += 1;
+        }
+        n
+    })?;
+    Ok((base_sp.saturating_sub(src.min_sp.min(base_sp)), items))
+}
+
+fn stage_depth(i: &Input, c: &mut Case) -> Result<(), String> {
+    use crate::model::*;
+    use crate::refmodel::*;
+    let a = i.args();
+    let (kind, big) = (a[0], a[1] as usize);
+    let spec = std::rc::Rc::new(SpecTable::new(vec![
+        Elem { id: 0x81, ty: Ty::Master, path: vec![], name: "M".into() },
+        Elem { id: 0x82, ty: Ty::U, path: vec![PathPart::Id(0x81)], name: "U".into() },
+        Elem { id: 0x83, ty: Ty::U, path: vec![], name: "R".into() },
+    ]));
+    crate::dynspec::set_current(spec);
+    let build = |n: usize| -> Vec<u8> {
+        let mut forest = Vec::new();
+        for _ in 0..n {
+            let mut m = Node::master(0x81, if kind == 2 || kind == 3 { vec![Node::leaf(0x82, Payload::U(7))] } else { vec![] });
+            if kind == 1 {
+                m.enc.unknown = true;
+                m.enc.size_w = 1;
+            }
+            forest.push(m);
+            if kind == 3 {
+                forest.push(Node::leaf(0x83, Payload::U(1)));
+            }
+        }
+        ref_encode(&forest).0
+    };
+    let small = 100usize;
+    let (d_small, n_small) = depth_of_parse(&build(small), &[0x81])?;
+    let (d_big, n_big) = depth_of_parse(&build(big), &[0x81])?;
+    c.checks += 2;
+    c.nontrivial = true;
+    let per = if kind == 3 { 2 } else { 1 };
+    c.sample_with(|| format!("{} consecutive buffered masters (shape {}): stack depth {} bytes; {} of them: {} bytes", small, kind, d_small, big, d_big));
+    if n_small != small * per || n_big != big * per {
+        return Err(format!("harness: expected {} / {} items, got {} / {}", small * per, big * per, n_small, n_big));
+    }
+    if d_big > d_small + 64 * 1024 {
+        let per_master = (d_big - d_small) / (big - small);
+        return Err(format!(
+            "stack use grows with the number of consecutive buffered masters (shape {}): {} bytes deep for {} masters, {} bytes for {} (~{} bytes each) — the recursion aborts the process by stack overflow once a file holds enough of them (about {} for a 2 MiB thread stack, {} bytes of input)",
+            kind, d_small, small, d_big, big, per_master, (2 << 20) / per_master.max(1), (2 << 20) / per_master.max(1) * 2
+        ));
+    }
+    Ok(())
+}
+
+pub const STAGES: &[Stage] = &[Stage { name: "totality", f: stage }, Stage { name: "stack_depth_buffered_masters", f: stage_depth }];
 
 pub fn run(rc: &mut RunCtx) {
+    // shapes: 0 empty known-size, 1 unknown-size closed by the next sibling, 2 with a child, 3 separated by a root-level leaf
+    rc.run_indexed(STAGES[1], 4, true, &|k| Input::Args(vec![k, 3000]));
     rc.run_pt(STAGES[0], rc.pick(80_000, 3_000_000), (128, 700));
     for l in ["error_returned", "try_recover_called", "injected_error_surfaced", "fused_checked", "capacity_below_16", "input_adversarial_headers", "input_random_bytes"] {
         rc.require_label("totality", l, 10_000);
